@@ -566,12 +566,8 @@ Section B4.
       + discriminate.
     - (* SLocal *) intros ns ls ats es l IHe Hf Hs flv slv reg. cbn [frag_stat tb_shp_stat] in *. bs Hf. bs Hs.
       intros st seg rest en Exc Hfr Heq Hnb Hc. cbn [b_stat snd] in Hnb. cbn [cl1_stat cl_stat] in *.
-      assert (Hlc : (length es <= length (combine ns ls))%nat).
-      { match goal with H : Nat.eqb (length ns) (length ls) = true |- _ => apply Nat.eqb_eq in H; rename H into Hl1 end.
-        match goal with H : Nat.leb (length es) (length ns) = true |- _ => apply Nat.leb_le in H; rename H into Hl2 end.
-        rewrite combine_length. lia. }
-      pose proof (cl_local_loop_shape (fun e => tr_exp flv e) (fun e => cl1_exp nm flv e) es (combine ns ls) st Hlc) as E1.
-      pose proof (cl_local_loop_shape (fun e => tr_exp flv e) (fun e => cl_exp nm flv e) es (combine ns ls) st Hlc) as E2.
+      pose proof (cl_local_loop_shape (fun e => tr_exp flv e) (fun e => cl1_exp nm flv e) es (combine ns ls) st) as E1.
+      pose proof (cl_local_loop_shape (fun e => tr_exp flv e) (fun e => cl_exp nm flv e) es (combine ns ls) st) as E2.
       cbv beta in E1, E2. unfold tT, tC in E1, E2. rewrite E1 in Hc. rewrite E2.
       apply (exps_simc flv slv reg es IHe ltac:(assumption) ltac:(assumption) st (seg :: rest) en Exc Hfr ltac:(discriminate) Heq);
         [|exact Hc].
